@@ -48,6 +48,27 @@ fn generate(
     generate_doc(&document, opts, partial, version_comment)
 }
 
+// the same outputs, but not as the first thing the parsed document and the settings object are used for: the
+// script of the other kind and this kind are generated first, with another value for every option key, from the same
+// `Document` and the same `RuntimeSettings`; then the options of the case are added (`HashMap::extend`: they replace
+// the earlier values) and the outputs are generated. A library without state that outlives a generation returns
+// what `generate` returns.
+fn generate_after_history(
+    yaml_path: &Path,
+    opts: &[(String, String)],
+    partial: bool,
+    version_comment: bool,
+) -> Result<Gen, (Stage, SlinkyError)> {
+    let document = slinky::Document::read_file(yaml_path).map_err(|e| (Stage::Parse, e))?;
+    let shadow: Vec<(String, String)> = opts.iter().map(|(k, v)| (k.clone(), format!("{}~", v))).collect();
+    let mut rs = make_rs(&shadow, version_comment);
+    let _ = generate_doc_rs(&document, &rs, !partial);
+    let _ = generate_doc_rs(&document, &rs, partial);
+    rs.add_custom_options(opts.iter().cloned());
+    let _ = generate_doc_rs(&document, &rs, !partial);
+    generate_doc_rs(&document, &rs, partial)
+}
+
 // every in-memory output, from an already parsed document (which may be reused for several generations)
 fn generate_doc(
     document: &slinky::Document,
@@ -353,7 +374,14 @@ fn main() {
                 };
                 ans["files"] = Value::Object(files);
             } else {
-                let r = panic::catch_unwind(|| generate(&ypath, &opts, partial, version_comment));
+                let history = req.get("history").and_then(|v| v.as_bool()).unwrap_or(false);
+                let r = panic::catch_unwind(|| {
+                    if history {
+                        generate_after_history(&ypath, &opts, partial, version_comment)
+                    } else {
+                        generate(&ypath, &opts, partial, version_comment)
+                    }
+                });
                 ans = match r {
                     Err(p) => {
                         let msg = if let Some(s) = p.downcast_ref::<&str>() {
